@@ -165,6 +165,9 @@ func genSize(t *rapid.T, label string, be int, max int) int {
 	default:
 		n = rapid.IntRange(0, 3000).Draw(t, label)
 	}
+	if max > 100000 && rapid.Bool().Draw(t, label+"-huge") {
+		n = max - rapid.IntRange(0, 5).Draw(t, label+"-hugeoff")
+	}
 	if n < 0 {
 		n = 0
 	}
@@ -203,8 +206,13 @@ func genScenario(t *rapid.T) *scenario {
 	dir := rapid.SampledFrom([]string{"send", "recv", "both", "both"}).Draw(t, "dir")
 	be := sc.blockEff()
 	maxW := 20000
-	if rapid.IntRange(0, 15).Draw(t, "bigw") == 0 {
+	switch rapid.IntRange(0, 31).Draw(t, "bigw") {
+	case 0, 1:
 		maxW = 140000
+	case 2:
+		// one Write larger than the receive buffer of this library's own
+		// receiving end
+		maxW = ibb.MaxBufferSize + 40000
 	}
 	// approximate state, only used to bias towards meaningful sequences; the
 	// executor accepts any sequence
@@ -570,6 +578,9 @@ func (r *runner) scanSent() {
 			r.nPackets++
 			if len(raw) > r.sc.blockEff() {
 				r.class("note:packet-larger-than-block-size")
+			}
+			if len(raw) > ibb.MaxBufferSize {
+				r.failf("data packet #%d carries %d bytes: more than the receive buffer (ibb.MaxBufferSize = %d) of this library's own receiving end, which refuses such a packet - the bytes cannot be delivered", r.nPackets-1, len(raw), ibb.MaxBufferSize)
 			}
 		case "close":
 			if r.conn != nil && e.sid == r.sid {
